@@ -75,6 +75,21 @@ PROPS = {
             "X: totality of the whole start-up path; hangs in general",
         ],
     },
+    "C04": {
+        "units": ["jws", "http"],
+        "design_ref": "DESIGN.md section 5 C04",
+        "technique": "Verus function contracts: JWS structure as a spec predicate over uninterpreted base64url/serialisation/signature relations; nonce and URL binding as preconditions of the transmission",
+        "text": "Deductive proof that encode_jwk/encode_kid/encode_kid_mac produce the flattened JWS of RFC 7515 with exactly the header "
+                "members the property names (jwk xor kid, nonce, exact url, alg name of the given algorithm), signed over "
+                "b64(protected).b64(payload); and that every POST of http.rs carries a body built from the newest stored nonce and the "
+                "very URL that is requested, the stored nonce being refreshed from every response.",
+        "assumptions": [
+            "T: serde_json serialises the header/data structs field by field, omitting None members (ser_spec is uninterpreted); base64url and UTF-8 are uninterpreted",
+            "T: KeyPair::sign returns a signature valid for (key, alg, input) (relation valid_sig; its algorithm/key compatibility and ECDSA padding are in unit keys)",
+            "X: verification of signatures by an independent implementation; nonce freshness across calls against servers that omit Replay-Nonce on error responses; "
+            "which key and account URL the data-builder closures bind (request_certificate / account flows)",
+        ],
+    },
     "C06": {
         "units": ["schedule", "x509time", "renew", "storage"],
         "design_ref": "DESIGN.md section 5 C06",
